@@ -140,6 +140,71 @@ class C14Entered(Harness):
 
 
 @register
+class C14Adaptive(C14Entered):
+    group = "adaptive"
+    bounds_doc = "N<=3 values in [-3, 3) with weights none/int/real entered into adaptive fixed-width histograms (width 1): partial histograms over different bin ranges combined with +, += and sum() (the bin-adapting branch of addition), fills that grow the bin range, += into an empty adaptive histogram"
+
+    def instances(self, tier):
+        for N in (2, 3):
+            for way in ("h1+h1", "iadd", "sum", "h1+f", "empty+="):
+                for wk in ("none", "int", "real"):
+                    if tier == "quick" and (N == 3 and (wk == "real" or way in ("sum", "h1+f"))):
+                        continue
+                    yield f"sta-N{N}-{way}-w{wk}", dict(N=N, way=way, weights=wk, post="none")
+
+    def declare(self, cx, p):
+        N = p["N"]
+        x = {"v": cx.reals("v", N)}
+        if p["weights"] == "int":
+            x["w"] = [cx.pyint(f"w{i}", 1) for i in range(N)]
+        elif p["weights"] == "real":
+            x["w"] = [cx.pyfloat(f"w{i}") for i in range(N)]
+            if cx.sym:
+                cx.assume(*[w > 0 for w in x["w"]])
+        if cx.sym:
+            cx.assume(*[z3.And(cx.t(v) >= -3, cx.t(v) < 3) for v in x["v"]])
+        return x
+
+    def drive(self, E, p, x):
+        np = E.np
+        h1 = E.mod("physt._facade").h1
+        N, way = p["N"], p["way"]
+        wdt = int if p["weights"] == "int" else float
+
+        def build(idx):
+            kw = {}
+            if "w" in x:
+                kw["weights"] = np.asarray([x["w"][i] for i in idx], dtype=wdt)
+            return h1(np.asarray([x["v"][i] for i in idx], dtype=float), "fixed_width", bin_width=1.0, adaptive=True, **kw)
+
+        a, b = build(range(N - 1)), build([N - 1])
+        if way == "h1+h1":
+            h = a + b
+        elif way == "iadd":
+            h = a
+            h += b
+        elif way == "sum":
+            h = sum([a, b])
+        elif way == "h1+f":
+            h = a
+            if "w" in x:
+                h.fill(x["v"][N - 1], x["w"][N - 1])
+            else:
+                h.fill(x["v"][N - 1])
+        else:
+            h = h1(None, "fixed_width", bin_width=1.0, adaptive=True, dtype=(None if p["weights"] != "real" else float))
+            h += a
+            h += b
+        return {"st": _st(E, h), "total": h.total, "nbins": len(h.frequencies)}
+
+    def oracle(self, cx, p, x, obs):
+        yield from super().oracle(cx, p, x, obs)
+        if obs.get("raised") is None:
+            w = [cx.t(i) for i in x["w"]] if "w" in x else [z3.IntVal(1)] * p["N"]
+            yield "total", cx.eq(obs["total"], zsum(w))
+
+
+@register
 class C14Invalid(Harness):
     prop = "C14"
     group = "invalid"
